@@ -80,7 +80,7 @@ func runC03(t *simrt.Tape, o Opts) Outcome {
 		st.Oracle = map[string]int{}
 		h := &hist{w: w, t: t, parts: world.Partitions[:1+t.Choose(6, "nparts")], maxProc: 2, samePolicyTimes: true}
 		h.gen = world.GenOpts{AllowTinyLFU: allowTinyLFU, SmallCaps: t.Choose(3, "smallcaps") == 1}
-		h.weights = [opKinds]int{opEncrypt: 20, opDecrypt: 4, opOpen: 2, opCloseSess: 1, opAdvance: 2, opRevoke: 1, opForeignRotate: 1, opRestart: 1, opNewProc: 1}
+		h.weights = [opKinds]int{opEncrypt: 20, opDecrypt: 4, opOpen: 2, opCloseSess: 1, opAdvance: 2, opRevoke: 1, opForeignRotate: 1, opRestart: 1, opNewProc: 1, opBurst: 1}
 		h.payloadClasses = []int{2, 3, 0, 1}
 		h.newProc()
 		if t.Choose(4, "faulty") == 1 {
@@ -165,7 +165,7 @@ func runC03(t *simrt.Tape, o Opts) Outcome {
 		st.Class = fmt.Sprintf("%s|keys=%d|%s", h.base.Class(), nkeys, kindsUsed(w))
 		st.Sample = map[string]any{"encrypts": nenc, "keys_created": nkeys, "aead_calls": len(w.AEADCalls), "emitted_strings_scanned": w.Emitted, "log_lines": w.LogLines, "history_head": first(h.trace, 12)}
 	})
-	return finish(s, w, st, false)
+	return finish(s, w, st, true)
 }
 
 func first(a []string, n int) []string {
